@@ -65,6 +65,18 @@ def base_streams(size: str = "small") -> tuple:
         data = DR.g_write(seq, cls, opts, "stream_frames_sink", bindings=[(p, i) for p, i in bind])
         out.append(_entry(f"ns/{cls}", cls, data, True))
         out.append(_entry(f"ns+empty/{cls}", cls, with_empty_frames(data), True))
+    if size == "full":
+        # boundary-crossing streams: frames larger than BufferedReader's 8 KiB buffer and than
+        # the 16383/16384 varint boundary, many frames, very long strings
+        from mc import roundtrip as RT  # noqa: PLC0415
+
+        for kind, cls, fs in (("names300", "triple", 250), ("names300", "quad", 40),
+                              ("runs", "graph", 64), ("longstrings", "triple", 250)):
+            seq = RT.scale_seq(kind, 3 if cls == "triple" else 4)
+            data = DR.g_write(seq, cls, DR.make_options(cls, (4000, 150, 32), fs, True))
+            e = _entry(f"big/{kind}/{cls}/fs{fs}", cls, data, all(T.is_rdf11(s) for s in seq))
+            e["big"] = True
+            out.append(e)
     for e in out:
         # the corpus itself must be readable by the code under test (else: harness problem
         # or a C01 violation that C01 reports) -- checked lazily by the users
